@@ -251,23 +251,28 @@ def _hardware_sources(f, e, depth=0, seen=None):
 def r3(ctx):
     p = ctx.prog
     f = p.func(f"{SCHED}.notify_status")
-    rb = [n for n in f.body_nodes() if isinstance(n, ast.If) and isinstance(n.test, ast.Compare) and "Status.ROLLBACK" in unparse(n.test)
-          and unparse(n.test.left) == "status" and isinstance(n.test.ops[0], ast.Eq)]
-    ctx.require(len(rb) >= 1, "C11.R3: ROLLBACK branch not found in notify_status")
-    body = next((b for b in rb if any(isinstance(c, ast.Call) and isinstance(c.func, ast.Attribute) and c.func.attr in ("remove", "discard") for c in ast.walk(b))), rb[-1])
-    rem = [c for c in ast.walk(body) if isinstance(c, ast.Call) and isinstance(c.func, ast.Attribute) and c.func.attr in ("remove", "discard")
+    from ..facts import facts_at as _facts_at, key as _key
+
+    g = f.cfg
+
+    def _on_rollback(call):
+        """the call is executed only when the notified status is ROLLBACK (however the test is spelled)"""
+        ids = g.node_containing(call)
+        return bool(ids) and all(any(v and _key(a) in ("status == Status.ROLLBACK", "Status.ROLLBACK == status", "status is Status.ROLLBACK", "Status.ROLLBACK is status")
+                                     for a, v in _facts_at(g, i)) for i in ids)
+
+    rem = [c for c in f.calls() if isinstance(c.func, ast.Attribute) and c.func.attr in ("remove", "discard")
            and root_attr(c.func.value) == "location_allocations" and unparse(c.func.value).endswith(".jobs")]
-    loop = [n for n in ast.walk(body) if isinstance(n, ast.For) and unparse(n.iter).endswith(".locations")]
-    ok = bool(rem) and bool(loop) and unparse(rem[0].args[0]) == "job_name" and any(rem[0] in ast.walk(l) for l in loop)
+    clr = [c for c in f.calls() if isinstance(c.func, ast.Attribute) and c.func.attr == "clear" and unparse(c.func.value).endswith(".locations")]
+    body = rem[0] if rem else (clr[0] if clr else f.node)
+    loops = lambda c: [a for a in ancestors(c) if isinstance(a, ast.For) and unparse(a.iter).endswith(".locations")]  # noqa: E731
+    ok = bool(rem) and all(_on_rollback(c) and unparse(c.args[0]) == "job_name" and bool(loops(c)) for c in rem)
     ctx.ob("R3", "ROLLBACK removes the job from the job list of every allocated location", ok, func=f, node=body, instance="rollback:remove",
            message="a rolled-back job stays registered on its locations (it keeps counting against slots)")
-    clr = [c for c in ast.walk(body) if isinstance(c, ast.Call) and isinstance(c.func, ast.Attribute) and c.func.attr == "clear"
-           and unparse(c.func.value).endswith(".locations")]
-    ok2 = bool(clr) and not any(clr[0] in ast.walk(l) for l in loop)
+    ok2 = bool(clr) and all(_on_rollback(c) and not loops(c) for c in clr)
     ctx.ob("R3", "ROLLBACK clears the allocation's locations after the loop", ok2, func=f, node=body, instance="rollback:clear")
-    ctx.ob("R3", "ROLLBACK clean-up happens under the scheduler lock", under_lock(body) is not None, func=f, node=body, instance="rollback:lock")
+    ctx.ob("R3", "ROLLBACK clean-up happens under the scheduler lock", bool(rem or clr) and all(under_lock(c) is not None for c in rem + clr), func=f, node=body, instance="rollback:lock")
     # the release walks job_allocation.locations: it must not run after the clean-up emptied them
-    g = f.cfg
     frees = [n.id for n in g.nodes.values() if any(isinstance(c.func, ast.Attribute) and c.func.attr == "_free_resources" for c in n.calls())]
     cleans = [n.id for n in g.nodes.values() if any(
         isinstance(c.func, ast.Attribute) and c.func.attr in ("clear", "remove", "discard") and
